@@ -98,6 +98,42 @@ pub fn check_splitmix_mix(c: &MixCase) -> CheckResult {
     Ok(CaseInfo::new(n32 > 0 && n32 < c.calls.len() && !gens::is_anchor(Ty::SplitMix64, &c.seed.bytes)).class(format!("seed:{}", c.seed.class)))
 }
 
+/// T^-1 of the *reference model's* step (extracted from the model on the basis states)
+fn model_inverse(ty: Ty) -> Option<std::sync::Arc<crate::gf2::Matrix>> {
+    use crate::gf2::{Bits, Matrix};
+    use std::collections::HashMap;
+    use std::sync::{Arc, Mutex, OnceLock};
+    static CACHE: OnceLock<Mutex<HashMap<Ty, Option<Arc<Matrix>>>>> = OnceLock::new();
+    let mut g = CACHE.get_or_init(|| Mutex::new(HashMap::new())).lock().unwrap();
+    g.entry(ty)
+        .or_insert_with(|| {
+            let info = ty.info();
+            let n = info.nbits;
+            let cols = (0..n)
+                .map(|i| {
+                    let mut m = Model::from_seed(ty, &Bits::unit(i).to_bytes(info.seed_len));
+                    m.next();
+                    Bits::from_bytes(&m.state_bytes())
+                })
+                .collect();
+            Matrix { n, cols }.inverse().map(Arc::new)
+        })
+        .clone()
+}
+
+/// a seed `back` steps before a structured target state (of the reference model)
+pub fn preimage_case(ty: Ty, target: &Seed, back: usize) -> StreamCase {
+    use crate::gf2::Bits;
+    let info = ty.info();
+    let mut s = Bits::from_bytes(&target.bytes);
+    if let Some(ti) = model_inverse(ty) {
+        for _ in 0..back {
+            s = ti.apply(&s);
+        }
+    }
+    StreamCase { ty, seed: Seed { class: format!("pre:{}", target.class), bytes: s.to_bytes(info.seed_len) }, steps: back + 3 }
+}
+
 pub fn def(ctx: &Ctx) -> PropDef {
     let mut subs: Vec<Box<dyn SubCheck>> = Vec::new();
     let t = ctx.tier;
@@ -110,6 +146,14 @@ pub fn def(ctx: &Ctx) -> PropDef {
             move || (gens::seed_for(ty, zero_ok), steps.clone()).prop_map(move |(seed, steps)| StreamCase { ty, seed, steps }).boxed(),
             check_stream,
         ));
+        if ty.info().linear {
+            subs.push(PSub::boxed(
+                format!("preimage/{}", ty.name()),
+                t.pick(6000, 600_000),
+                move || (gens::target_state(ty), 1usize..=6).prop_map(move |(target, back)| preimage_case(ty, &target, back)).boxed(),
+                check_stream,
+            ));
+        }
         let long = t.pick(50_000usize, 5_000_000);
         subs.push(PSub::boxed(
             format!("long/{}", ty.name()),
@@ -126,7 +170,7 @@ pub fn def(ctx: &Ctx) -> PropDef {
     ));
     PropDef {
         id: "C01",
-        rule: "cases = (type in the 15 rand_xoshiro generators) x seed (weighted classes: uniform, sparse 1-3 bits, dense, special words 0/MAX/2^(w-1)/carry patterns, single byte, crate test seeds) x step count {1; 2-16; 17-300; <=5000; long runs}; every output word and the successor state (g == from_seed(le_bytes(model state))) are compared with the transliterated reference. Non-trivial = seed is not a crate test seed, some state word >= 2^(w/2) and some compared output has a bit set in its top half; distinct by hash of (type, seed, steps).".into(),
+        rule: "cases = (type in the 15 rand_xoshiro generators) x seed (weighted classes: uniform, sparse 1-3 bits, dense, special words 0/MAX/2^(w-1)/carry patterns, relational words (equal / complement / negation / disjoint / off-by-one of one base word), single byte, crate test seeds; preimages: seeds 1-6 steps BEFORE a structured target state, pulled back through the inverse of the reference step; SplitMix64: counters that wrap or whose value after an internal stage of the reference finalisers is structured, reached after 1-13 steps) x step count {1; 2-16; 17-300; <=5000; long runs}; every output word and the successor state (g == from_seed(le_bytes(model state))) are compared with the transliterated reference. Non-trivial = seed is not a crate test seed, some state word >= 2^(w/2) and some compared output has a bit set in its top half; distinct by hash of (type, seed, steps).".into(),
         explanation: None,
         assumptions: vec![
             "refmodel::vigna is a faithful transliteration of the published C sources (validated at start-up against golden vectors: the reference vectors quoted in the crate's tests and vectors from the independent Python model)".into(),
